@@ -29,7 +29,7 @@ SRC = """
 namespace ns { class A { A(); }; class B { B(); }; class C { C(); }; }
 namespace gt {
 template<TT = {%s}>
-class Cls : gt::Base<TT> {
+class Cls : gt::Base<ns::Holder<TT>, TT> {
   enum Mode { M1, M2 };
   Cls(const TT& t, const This::Mode& m = This::Mode::M1);
   This::Mode mode() const;
@@ -46,7 +46,7 @@ template<TT = {%s}>
 TT fun(const TT& a, std::vector<TT::Value> v);
 }
 """
-IN_USE = ["Traits", "Scalar", "scal", "sc", "sv", "Cls", "Base", "Mode", "M1", "M2", "A", "B", "C", "ns", "gt", "This", "Value", "std", "vector", "map", "int", "pair", "UU", "double",
+IN_USE = ["Holder", "Traits", "Scalar", "scal", "sc", "sv", "Cls", "Base", "Mode", "M1", "M2", "A", "B", "C", "ns", "gt", "This", "Value", "std", "vector", "map", "int", "pair", "UU", "double",
           "t", "m", "vs", "mm", "p", "other", "raw", "u", "o", "a", "v", "mode", "value", "both", "Make", "tm", "prop", "fun", "void", "const",
           "operator", "static", "template", "class", "enum", "bool", "char", "size_t", "float", "typedef", "virtual", "namespace", "unsigned"]
 INSTS = ["ns::A", "ns::B", "ns::C"]
